@@ -285,3 +285,43 @@ def _rebin_contract(tag, depth):
 _rebin_contract('2-D', None)
 _rebin_contract('cube-of-2', 2)
 REBIN = ['lentil.util.rebin#2-D']      # the cube variant has one slow (unstable) index-arithmetic query: left to the bounded stand-in
+
+
+# ---------------------------------------------------------------------------------------
+# centroid: first moments in index coordinates (C20; the abstraction used at call sites is in zernike.py)
+
+def _centroid_contract():
+    c = contract('lentil.util.centroid#moments', level='I')
+    c.qualname = 'lentil.util.centroid'
+    c.tag = 'moments'
+
+    def params(ctx):
+        return {'img': array(ctx, 'img', shape2(ctx, 'img'), 'float')}
+    c.params = params
+    c.modifies = set()
+
+    @c.post('first_moments_over_total')
+    def _(ctx, env0, env, out):
+        from lvc import prove
+        img = env0['img']
+        n, m = img.shape
+        total = S.sigma(0, n, lambda i: S.sigma(0, m, lambda j: img.at((i, j))))
+        if getattr(ctx, 'replaying', False):
+            v = prove.expand_sums(ctx, total)       # concrete inputs: the total itself
+        else:
+            prove.force(ctx, out.value)
+            v = prove.find_named_sum(ctx, total)
+            ctx.oblige('util.centroid::normalises_by_the_total', v is not None)
+        r, cc = elems(ctx, out.value)
+        if v is None:
+            return None
+        mr = S.sigma(0, n, lambda i: S.sigma(0, m, lambda j: S.truediv(S.mul(i, img.at((i, j))), v)))
+        mc = S.sigma(0, n, lambda i: S.sigma(0, m, lambda j: S.truediv(S.mul(j, img.at((i, j))), v)))
+        # precondition of the clause: the image has a non-zero total (numpy yields nan / inf otherwise)
+        prove.with_hyp(ctx, [S.z(S.ne(v, 0))], lambda: (prove.oblige_equal(ctx, 'util.centroid::row_is_first_moment_over_total', r, mr),
+                                               prove.oblige_equal(ctx, 'util.centroid::column_is_first_moment_over_total', cc, mc)))
+        return None
+    return c
+
+
+_centroid_contract()
